@@ -535,7 +535,7 @@ func c09TimeAll(c *Ctx, only string) {
 	}
 	for li0 := 0; li0 < len(locs)*4; li0++ {
 		li, loc, shape := li0/4, locs[li0/4], li0%4
-		if loc == nil && shape > 1 {
+		if loc == nil && shape > 2 {
 			continue
 		}
 		// the same clock and zone, supplied through differently stacked valuers
@@ -545,6 +545,11 @@ func c09TimeAll(c *Ctx, only string) {
 			valuer = influxql.MultiValuer(influxql.MapValuer{"x": int64(1)}, &influxql.NowValuer{Now: now, Location: loc})
 		case 2:
 			valuer = influxql.MultiValuer(influxql.MultiValuer(influxql.MapValuer{"x": int64(1)}), &influxql.NowValuer{Now: now, Location: loc})
+			if loc == nil {
+				// no zone: the clock's reading may be carried in any location (as
+				// time.Now() carries the process's), the zone is still UTC
+				valuer = &influxql.NowValuer{Now: now.In(ny)}
+			}
 		case 3:
 			valuer = influxql.MultiValuer(&influxql.NowValuer{Now: now}, influxql.MultiValuer(influxql.MapValuer{}, &influxql.NowValuer{Now: now.Add(time.Hour), Location: loc}))
 		}
